@@ -10,8 +10,9 @@ reading the bytes back succeeds and consumes exactly them, and re-writing gives 
 It is **false** for the generated code as it stands (`roundtrip_all_fails`, witness: an alias of `bit`; also `Maybe<bit>`):
 the writer emits no byte for the `bit`, the reader consumes one.  `tl2_roundtrip` proves it under the explicit guard
 `Good` (`Codec/TL2RoundTrip.lean`), whose only non-shape conditions are: no `bit` reached through an alias / `Maybe` /
-array element, no float `-0.0` where the writer tests `x != 0` (it is then *read back as `+0.0`*: same bytes, but a
-different value — see C04), no optional field of an empty non-`true` struct type, encodings shorter than 2^63 bytes.
+array element, no optional field of an empty non-`true` struct type, encodings shorter than 2^63 bytes.  Floats are raw
+bit patterns and every pattern is covered: the writer leaves a float out iff its pattern is zero (`(x != 0 || 1/x < 0)`
+in the generated code), so `-0.0` is written and read back like any other value (see C04).
 -/
 namespace TLVerif.Props.C03
 open TLVerif.Prim TLVerif.Codec
